@@ -19,8 +19,11 @@ REPO = os.environ.get("AVEL_REPO", "/repo")
 INC = os.path.join(REPO, "include")
 CACHE = os.path.join(VERIF, ".cache")
 BUILD = os.path.join(VERIF, "build")
-EVID = os.path.join(VERIF, "evidence")
-REPLAY = os.path.join(VERIF, "replay")
+# evidence and replay files describe /repo itself; a run pointed at another tree (self-tests on scratch
+# worktrees, AVEL_REPO=...) writes them under build/ so that it can never overwrite committed evidence
+_SCRATCH = os.path.realpath(REPO) != os.path.realpath("/repo")
+EVID = os.path.join(VERIF, "build", "scratch_evidence") if _SCRATCH else os.path.join(VERIF, "evidence")
+REPLAY = os.path.join(VERIF, "build", "scratch_replay") if _SCRATCH else os.path.join(VERIF, "replay")
 NCPU = int(os.environ.get("VERIF_JOBS", os.cpu_count() or 4))
 
 CLANGXX = "clang++"
